@@ -388,3 +388,97 @@ Print Assumptions C09_nnls_draw_optimal.
 Example C09_example_nnls : rows_wf 2 ex_nn /\ Forall (fun p => 0 <= ls_w (fst p))%Qc ex_nn /\
   (exists x, nnls_draw 2 ex_nn = Some x /\ rto_draw 2 ex_nn <> Some x).
 Proof. exact ex_nn_ok. Qed.
+
+(* ---- the C01 one-step law as a PROVED fact for the executable instances (it is a hypothesis of the generic theorems):
+   for every joint, every assignment of sampler kinds, initial points, step counts, script and call sequence the
+   correspondence can run, every logged transition of hybrid_run holds the joint conditioned on current_samples at that
+   moment; for hybrid_run2 in addition the target object carries exactly those values, and a least-squares block builds its
+   stacked system from them (rto_step at upd current_samples i current_point). *)
+Theorem C09_hybrid_run_targets : forall fresh (jt : list vec -> Q) kinds inits scales ns sc ops,
+  length kinds = length inits -> length scales = length inits ->
+  Forall (fun e => e_blk e < length (e_cur e) /\ forall v, e_tgt e v = jt (upd (e_cur e) (e_blk e) v))
+         (r_log (hybrid_run fresh jt kinds inits scales ns sc ops)).
+Proof. exact hybrid_run_targets. Qed.
+Print Assumptions C09_hybrid_run_targets.
+
+Theorem C09_hybrid_run2_targets : forall tol fresh (jt : list vec -> Q) specs kinds inits scales ns sc ops,
+  length kinds = length inits -> length scales = length inits ->
+  Forall (fun e => e_blk e < length (e_cur e) /\
+                   (forall v, e_tgt e v = (jt (upd (e_cur e) (e_blk e) v), upd (e_cur e) (e_blk e) v)) /\
+                   forall sb r, nth (e_blk e) specs None = Some sb ->
+                     ctrans2 tol specs (e_blk e) (e_tgt e) (e_s e) r
+                     = rto_step tol sb (e_blk e) (upd (e_cur e) (e_blk e) (s_pt (e_s e))) (e_s e) r)
+         (r_log (hybrid_run2 tol fresh jt specs kinds inits scales ns sc ops)).
+Proof. exact hybrid_run2_targets. Qed.
+Print Assumptions C09_hybrid_run2_targets.
+
+(* closing the chain between the rational joint and the Qc-valued rows handed to rto_draw: for an unconstrained block without
+   Laplace rows (LinearRTO), at the assignment a (in a run: current_samples with the block's entry = its current point,
+   C09_hybrid_run2_targets), with the certificates dd = 1 the transition requires for such rows: the conditional qcond of the
+   rows to_noisy builds -- the object C09_rto_draw_conditional speaks about (mean m, precision form, noise covariance) --
+   equals, at every value p of the block, the sum of the joint's Gaussian factors of the spec at (other blocks of a, p). *)
+From CV Require Import Proofs.C09_LsChain.
+Theorem C09_ls_block_conditional_is_qcond : forall (sp : lsspec) (i : nat) (a : list vec) (es ss dds : list Q) (p : vec),
+  i < length a -> length p = length (nth i a []) ->
+  (forall gl, In gl sp -> g_w (fst gl) <> inl i) ->
+  let z := zip4 (ls_rows sp i a) es ss dds in
+  length z = length (ls_rows sp i a) -> (forall q, In q z -> (snd q == 1)%Q) ->
+  (this (qcond (to_noisy z) (qvec p)) == fold_right (fun gl acc => gfac_val (upd a i p) (fst gl) + acc) 0 sp)%Q.
+Proof. exact ls_block_conditional_is_qcond. Qed.
+Print Assumptions C09_ls_block_conditional_is_qcond.
+
+Example C09_example_chain :
+  (let sp : lsspec := [(mkGF (inl 1%nat) [mkRow 1%Q [[1%Q]; []]], None)] in
+   let a : list vec := [[0%Q]; [2%Q]] in
+   let z := zip4 (ls_rows sp 0 a) [1 # 2]%Q [2]%Q [1]%Q in
+   length z = length (ls_rows sp 0 a) /\ (forall q, In q z -> (snd q == 1)%Q)) /\
+  (length [KMH; KMH] = length ([[1]; [2]]%Q : list vec) /\ length ([1; 1]%Q : list Q) = length ([[1]; [2]]%Q : list vec)).
+Proof. split; [split; [reflexivity | intros q [<- | []]; reflexivity] | split; reflexivity]. Qed.
+
+(* legacy cuqi.sampler.Gibbs with a modelled LinearRTO block (the instance the correspondence runs for the legacy real cells,
+   Model/C09_Legacy2.v): in every sweep the value stored for a least-squares block is the draw ls_draw (-> rto_draw /
+   nnls_draw: C09_rto_draw_conditional) computed from the stacked system at (blocks already updated in this sweep: new; the
+   block's own previous value; the previous values of the rest) -- the fresh sampler object of an update cannot carry a
+   system of an earlier conditional.  No C01 hypothesis: the conditioning of the instance is partial application. *)
+From CV Require Import Model.C09_Legacy2 Proofs.C09_Legacy2.
+Theorem C09_legacy_ls_draw_current : forall tol (jt : list vec -> Q) ks floors (rs : nat -> nat -> rnd) (cur : list vec) e,
+  In e (snd (lsweep (cond (jt2 jt)) (cltrans2 tol ks floors) rs cur)) ->
+  let i := e_blk e in
+  let new := fst (lsweep (cond (jt2 jt)) (cltrans2 tol ks floors) rs cur) in
+  i < length cur /\
+  e_cur e = firstn i new ++ skipn i cur /\
+  forall sb, nth i ks L2Opq = L2Ls sb ->
+    nth_error new i = Some (match ls_draw tol sb i (firstn i new ++ e_s e :: skipn (S i) cur) (length (e_s e)) (rs i 0) with
+                            | Some m => adoptv (nth i floors 0%Q) m (firstn (length (e_s e)) (r_vec (rs i 0)))
+                            | None => [1; 1; 1; 1; 1; 1; 1]%Q
+                            end).
+Proof. exact legacy_ls_draw_current. Qed.
+Print Assumptions C09_legacy_ls_draw_current.
+
+(* what a passing comparison certifies about ONE transition of a least-squares block (LinearRTO / UGLA / RegularizedLinearRTO)
+   of the executable instance: if the block's state after rto_step is accepted by the checker (draw_ok), then the certificates
+   passed, the model's exact draw m = rto_draw / nnls_draw on the rows built at the assignment a exists, the run continues from
+   the implementation's point, and that point agrees with m to 1e-5 (scale-free, floor = the block's scale). *)
+Theorem C09_rto_step_certifies : forall tol (sb : lsblock) i a s r,
+  s_kind s = KLrto -> s_grad s = [] -> draw_ok (rto_step tol sb i a s r) = true ->
+  let n := length (s_pt s) in
+  let rows := ls_rows (fst sb) i a in
+  let k := length rows in
+  let obs := firstn n (r_vec r) in
+  let z := zip4 rows (firstn k (skipn n (r_vec r))) (firstn k (skipn (n + k) (r_vec r))) (firstn k (skipn (n + k + k) (r_vec r))) in
+  length z = k /\
+  forallb (fun q => cert_ok tol (fst (fst (fst q))) (snd (fst q)) (snd q)) z = true /\
+  exists m, (if snd sb then nnls_draw n (to_noisy z) else rto_draw n (to_noisy z)) = Some m /\
+            s_pt (rto_step tol sb i a s r) = obs /\
+            length (map (fun c : Qc => this c) m) = length obs /\
+            (vmaxabs (vsub (map (fun c : Qc => this c) m) obs)
+              <= tol7 * (vmaxabs (map (fun c : Qc => this c) m) + vmaxabs obs + s_scale s))%Q.
+Proof. exact rto_step_certifies. Qed.
+Print Assumptions C09_rto_step_certifies.
+
+Example C09_example_certifies :
+  let sb : lsblock := ([(mkGF (inr 1%Q) [mkRow 1%Q [[1%Q]]], None)], false) in
+  let s0 := cinit KLrto [0%Q] 1%Q (fun _ => 0%Q) in
+  s_kind s0 = KLrto /\ s_grad s0 = [] /\
+  draw_ok (rto_step (1 # 1000000000000)%Q sb 0 [[0%Q]] s0 (mkR [1; 0; 1; 1]%Q 0%Q 1%Z)) = true.
+Proof. split; [reflexivity | split; [reflexivity | vm_compute; reflexivity]]. Qed.
